@@ -18,7 +18,8 @@ TECHNIQUE = (
     "state after every request are compared online with an executable model of the ISO 14229-1 default response chain, "
     "over generated models, request histories, exhaustive short requests and behaviour-switch subsets, the subsets both given at "
     "construction and written to the public behavior attribute of a live ECU in the middle of a history, while further ECUs that nobody "
-    "reconfigures live in the same process and are judged by their own switches"
+    "reconfigures live in the same process and are judged by their own switches; a harness-owned clock is moved between two steps of a "
+    "history (also between a seed and its key), by less and by more than the ECU's inactivity limit"
 )
 LEVEL_TEXT = (
     "Exploration: real virtual ECUs (seeds x randomness parameter sets incl. empty/full lists) are driven in-process with request "
@@ -36,6 +37,12 @@ LEVEL_TEXT = (
     "the full chain and their own state. Edge of the model: every history under a subset without rule 3 (construction-time or live) may "
     "change to any session of the model and ends with a session change to a session id the model does not contain (with / without "
     "suppress bit): reply, session state after it and - with rule 1 off too - the 22 F1 86 read-back are judged, then the history stops. "
+    "Time between two steps: every history has silences of 3 s (nothing may change) and of 30 / 600 s (inactivity reset: the next request is "
+    "judged in the initial state - default session, locked, no seed outstanding) at arbitrary places and, for about every sixth "
+    "outstanding seed (every second one if it comes from a non-default session and the default session offers that level too), between the "
+    "seed and its right key, at times with a tester present before the key: after the short silence 67 xx and the level set, after the long one "
+    "7F 27 24 and still locked. Bystander ECUs end every burst with a seed request and start the next one with its key, the clock having "
+    "been moved meanwhile by the other ECU's history. "
     "Held = held on those executions."
 )
 LEVEL_NOTE = (
@@ -48,7 +55,8 @@ RULE = (
     "from the shared request generator, plus exhaustive sweeps: all 256 one-byte and 65536 two-byte requests and sampled three-byte "
     "requests per swept state; live-reconfiguration histories = 120-300 requests, then 8-16 x (switch change, 256 one-byte + 250-600 "
     "two-byte + rule-5 probes, 120-300 requests), each switch change followed by ~80 requests to each of 2-3 untouched ECUs living beside, "
-    "and a last change to a subset without rule 3 followed by a session change to a session id outside the model; non-trivial = request answered by rules 1-6 with a rule other than 'unknown everywhere'; distinct = "
+    "and a last change to a subset without rule 3 followed by a session change to a session id outside the model; every history: silence of 3 / 30 / 600 s "
+    "before ~1 % of the requests and between 15-50 % of the seeds and their keys; non-trivial = request answered by rules 1-6 with a rule other than 'unknown everywhere'; distinct = "
     "distinct (model, switches, state, request)"
 )
 ASSUMPTIONS = [
@@ -58,6 +66,9 @@ ASSUMPTIONS = [
     "contain is judged (reply 50 xx / suppressed, session state xx afterwards: 'disabling one behaviour only removes that rule', 'session state "
     "changes exactly on the positive replies') but ends its history: the statement does not define an ECU inside a session it does not offer - "
     "except the 22 F1 86 read-back, which rule 5 answers with the active session independently of the model (asked only when rule 1 is off too)",
+    "the state reached by a history whose tester was silent for longer than the ECU's inactivity limit (clock of the server module moved by 30 / "
+    "600 s, never near the limit) is the initial state - default session, locked, no seed outstanding - so a key sent after it meets "
+    "requestSequenceError like any key without a seed; a silence of 3 s changes nothing",
     "ECUs in one process are independent: the switch subset of an ECU is what it was constructed with plus what was written to ITS behavior "
     "attribute; the statement's 'with its default behaviours enabled' holds for an ECU nobody reconfigured, whatever was done to another one",
     "'disabling one behaviour' covers a switch written to the public UDSServer.behavior attribute (or a new Behavior object assigned to it) "
@@ -115,6 +126,15 @@ def required_reach(tier: str) -> dict[str, int]:
         "edge.dsc-to-session-absent-from-model": 10, "edge.dsc-absent:answered": 3, "edge.dsc-absent:suppress-bit": 3,
         "edge.dsc-absent.read-back": 2, "edge.dsc-absent.live": 3, "edge.dsc-to-unoffered-session-of-model": 3,
         "edge.dsc-absent.from-non-default-session": 3,
+        # the clock moves between two steps of a history: silence between a seed and its key - longer than the inactivity limit (the
+        # ECU is back in its initial state: the right key, sent first thing after the reset [or after a tester present], reaches the
+        # seed/key handler because the default session offers the level too, and must meet requestSequenceError; also for a seed
+        # from a non-default session) or shorter (the key is still accepted); the same for bystander ECUs whose bursts of traffic
+        # are separated by the other ECU's history
+        "inactivity-pause.with-seed-outstanding": 50, "inactivity-pause.in-non-default-session": 20, "inactivity-pause.with-security-level-set": 20,
+        "inactivity.key-for-forgotten-seed:decided-by-handler": 30, "inactivity.key-for-forgotten-seed:decided-by-handler+tester-present": 5,
+        "inactivity.key-for-forgotten-seed:seed-from-non-default-session": 3, "short-pause.key-still-accepted": 30,
+        "bystander.key-for-forgotten-seed:decided-by-handler": 10, "bystander.key-after-short-gap-accepted": 8,
     }
 
 
@@ -180,6 +200,7 @@ class Bystander:
         self.d, self.kind, self.cfg = d, kind, cfg
         self.last_active = vecu.CLOCK.t  # harness's own record of when this ECU was last spoken to (10 s inactivity reset)
         self.probes = 0
+        self.hist: list[bytes] = []  # everything this ECU was asked so far (its traffic comes in bursts, one per probe)
 
 
 async def new_bystander(seed: str, rp: int, kind: str) -> Bystander:
@@ -188,9 +209,11 @@ async def new_bystander(seed: str, rp: int, kind: str) -> Bystander:
     return Bystander(d, kind, {"server_seed": seed, "rp": rp, "off": [], "bystander": kind})
 
 
-def bystander_probes(ctx: Any, d: vecu.Driver) -> Any:
+def bystander_probes(ctx: Any, d: vecu.Driver, pending: tuple[int, bytes] | None = None) -> Any:
     """traffic of an untouched ECU: the request classes each single rule decides (as in probes(), smaller), in whatever state the
-    ECU's own earlier traffic has left it"""
+    ECU's own earlier traffic has left it.  Every burst ends with a seed request (if the active session offers one) and the next
+    burst starts with the key for it (`pending`): the two steps of that sequence are separated by however long the other ECU's
+    history took meanwhile - the seed is still valid, or the inactivity reset has made the ECU forget it"""
     rng = ctx.rng
     m = d.model
     assert m is not None
@@ -198,6 +221,10 @@ def bystander_probes(ctx: Any, d: vecu.Driver) -> Any:
     def offered(sid: int) -> list[int]:
         return m.M.get(m.S, {}).get(sid) or []
 
+    if pending is not None:
+        if rng.random() < 0.3:
+            yield b"\x3e\x00"
+        yield bytes([0x27, pending[0] + 1]) + pending[1]
     yield from (b"\x3e\x00", b"\x3e\x80", READ_BACK)
     if offered(0x10):
         yield bytes([0x10, rng.choice(offered(0x10)) | rng.choice([0, 0x80])])
@@ -209,6 +236,11 @@ def bystander_probes(ctx: Any, d: vecu.Driver) -> Any:
         sf = rng.choice(offered(sid)) | rng.choice([0, 0x80]) if offered(sid) and rng.random() < 0.5 else rng.randrange(256)
         yield bytes([sid, sf]) + (rng.randbytes(rng.choice([0, 0, 1, 2])))
     yield from (b"\x3e\x80", b"\x3e\x00")
+    odd = [x for x in offered(0x27) if x & 1]
+    if odd:
+        yield bytes([0x27, rng.choice(odd)])
+        if rng.random() < 0.3:
+            yield b"\x3e\x00"
 
 
 async def probe_bystanders(ctx: Any, bystanders: list[Bystander], beside: dict[str, Any], main_sw: dict[str, bool]) -> None:
@@ -216,10 +248,19 @@ async def probe_bystanders(ctx: Any, bystanders: list[Bystander], beside: dict[s
     for b in list(bystanders):
         bm = b.d.model
         assert bm is not None
-        if vecu.CLOCK.t - b.last_active > 10:
-            bm.reset()  # the tester of this ECU was silent for more than 10 s meanwhile
+        pending = outstanding_seed(bm)
+        requests = bystander_probes(ctx, b.d, pending)
+        # the tester of this ECU was silent meanwhile; for more than 10 s if the other ECU's history has moved the clock that far
+        long = vecu.CLOCK.t - b.last_active > 10
+        if b.probes:
+            requests = itertools.chain([("GAP", long)], requests)
+        if long:
             ctx.reach("bystander.after-inactivity")
-        ok = await drive(ctx, b.d, bystander_probes(ctx, b.d), f"bystander:{b.kind}", {**b.cfg, "beside": beside}, contrast_sw=main_sw)
+            if pending is not None:
+                ctx.reach("bystander.after-inactivity.with-seed-outstanding")
+        elif pending is not None:
+            ctx.reach("bystander.probed-again.with-seed-outstanding")
+        ok = await drive(ctx, b.d, requests, f"bystander:{b.kind}", {**b.cfg, "beside": beside}, contrast_sw=main_sw, hist0=b.hist)
         b.last_active = vecu.CLOCK.t
         b.probes += 1
         ctx.reach("bystander.probed-after-reconf")
@@ -239,15 +280,24 @@ def rule_under(pre: vecu.VecuModel, sw: dict[str, bool], q: bytes, raw: bool, re
     return shadow.check(q, raw, reply).rule
 
 
+def outstanding_seed(m: vecu.VecuModel) -> tuple[int, bytes] | None:
+    """(level, seed bytes) of the seed reply the ECU is waiting for the key of, as far as the harness has seen it"""
+    return (m.last_sa[0], m.last_sa[1]) if m.last_sa is not None and m.last_sa[1] is not vecu.UNKNOWN else None
+
+
 async def drive(ctx: Any, d: vecu.Driver, requests: Any, tag: str, cfg: dict[str, Any], bystanders: list[Bystander] | None = None,
-                contrast_sw: dict[str, bool] | None = None) -> bool:
+                contrast_sw: dict[str, bool] | None = None, hist0: list[bytes] | None = None) -> bool:
     """feed requests; returns False if the server raised (driver unusable afterwards).
     bystanders: other live ECUs, probed (and judged by their own switches) after every reconfiguration of this one;
-    contrast_sw: switch setting of another ECU in the process (reach attribution only)"""
+    contrast_sw: switch setting of another ECU in the process (reach attribution only);
+    hist0: the history this ECU already has from an earlier drive() (continued in place, so that witnesses show it)"""
     m = d.model
     assert m is not None
     last_seed = None
-    hist: list[bytes] = []
+    hist: list[bytes] = [] if hist0 is None else hist0
+    # the clock moved between two steps of a seed/key sequence (reach attribution only; the verdicts come from the model):
+    # the seed that was outstanding when the tester fell silent, the session it was requested in, how long the silence was
+    silence: tuple[tuple[int, bytes], int, bool, str] | None = None
     live = bool(cfg.get("live"))
     sw0 = dict(m.sw)  # the switch setting the ECU was constructed with (model's short names)
     off_now: frozenset[str] = frozenset(cfg.get("off", []))
@@ -315,12 +365,29 @@ async def drive(ctx: Any, d: vecu.Driver, requests: Any, tag: str, cfg: dict[str
                     ctx.reach("bystander.beside-omitted-ecu-changed-in-place")
                 await probe_bystanders(ctx, bystanders, beside, dict(m.sw))
             continue
-        if isinstance(q, tuple):  # ("PAUSE", seconds): the tester falls silent; > 10 s of inactivity reset the ECU state
-            vecu.CLOCK.advance(q[1])
-            if q[1] > 10:
+        if isinstance(q, tuple):
+            # ("PAUSE", seconds): the tester falls silent - the clock moves between two steps of the history; > 10 s of inactivity
+            # reset the ECU state (default session, locked, no seed outstanding), a shorter silence changes nothing.
+            # ("GAP", longer than 10 s?): the same for an ECU whose tester was silent while the clock was moved by somebody else's history
+            if q[0] == "PAUSE":
+                vecu.CLOCK.advance(q[1])
+            long = q[1] > 10 if q[0] == "PAUSE" else bool(q[1])
+            pending = outstanding_seed(m)
+            silence = (pending, m.S, long, "") if pending is not None else None
+            if long:
+                if m.S != 1:
+                    ctx.reach("inactivity-pause.in-non-default-session")
+                if m.sec is not None and m.sec is not vecu.UNKNOWN:
+                    ctx.reach("inactivity-pause.with-security-level-set")
+                if pending is not None:
+                    ctx.reach("inactivity-pause.with-seed-outstanding")
                 m.reset()
                 ctx.reach("inactivity-pause")
-            hist.append(b"\x00PAUSE")
+            else:
+                ctx.reach("short-pause")
+                if pending is not None:
+                    ctx.reach("short-pause.with-seed-outstanding")
+            hist.append(b"\x00PAUSE" if long else b"\x00PAUSE:short")
             continue
         hist.append(q)
         raw = d.is_raw(q)
@@ -361,6 +428,32 @@ async def drive(ctx: Any, d: vecu.Driver, requests: Any, tag: str, cfg: dict[str
         ctx.reach(f"rule:{v.rule.split('+')[0]}")
         if v.rule.endswith("+suppressed") and v.ok:
             ctx.reach("suppressed-positive")
+        if silence is not None:
+            (lvl, sd), s_before, long, between = silence
+            if v.rule.startswith("5:tester-present"):
+                silence = (silence[0], s_before, long, "+tester-present")  # does not touch the seed memory: the key may still follow
+            else:
+                silence = None
+                if not raw and q[0] == 0x27 and len(q) >= 2 and (q[1] & 0x7F) == lvl + 1 and q[2:] == sd:
+                    # the right key for the seed from before the silence, as the first request that concerns the seed memory
+                    if long:
+                        ctx.reach("inactivity.key-for-seed-from-before-the-reset")
+                        if v.rule.startswith("6:send-key-sequence"):
+                            # the level is offered in the default session too, so the seed/key handler itself has to know
+                            # that the sequence was broken off by the reset
+                            ctx.reach("inactivity.key-for-forgotten-seed:decided-by-handler")
+                            if between:
+                                ctx.reach("inactivity.key-for-forgotten-seed:decided-by-handler" + between)
+                            if s_before != 1:
+                                ctx.reach("inactivity.key-for-forgotten-seed:seed-from-non-default-session")
+                            if contrast_sw is not None:
+                                ctx.reach("bystander.key-for-forgotten-seed:decided-by-handler")
+                    elif v.rule.startswith("6:send-key-ok"):
+                        ctx.reach("short-pause.key-still-accepted")
+                        if between:
+                            ctx.reach("short-pause.key-still-accepted" + between)
+                        if contrast_sw is not None:
+                            ctx.reach("bystander.key-after-short-gap-accepted")
         if reply is not None and reply[0] == 0x7F and len(reply) == 3:
             if reply[2] == 0x7F:
                 ctx.reach("nrc.7f")
@@ -417,6 +510,19 @@ def history(ctx: Any, d: vecu.Driver, n: int, restrict_dsc: bool) -> Any:
     last_seed: tuple[int, bytes] | None = (m.last_sa[0], m.last_sa[1]) if m.last_sa is not None and m.last_sa[1] is not vecu.UNKNOWN else None
     remembered: tuple[int, bytes] | None = None  # the last seed the tester saw, even if the ECU has forgotten it meanwhile
     for _ in range(n):
+        if last_seed is not None and rng.random() < (0.5 if m.S != 1 and last_seed[0] + 1 in (m.M.get(1, {}).get(0x27) or []) else 0.15):
+            # the clock moves between two steps of a sequence: the tester falls silent between the seed and its key - for a short
+            # while (the sequence goes on) or for longer than the inactivity limit (the ECU is back in its initial state and must
+            # not know the seed any more, whichever session it was requested in) - and then sends the right key, at times after
+            # a tester present (which never concerns the seed memory); more often so where the reset makes the greatest difference:
+            # a seed from a non-default session whose level the default session offers as well
+            yield ("PAUSE", rng.choice([3.0, 3.0, 30.0, 30.0, 600.0]))
+            if rng.random() < 0.3:
+                yield rng.choice([b"\x3e\x00", b"\x3e\x80"])
+            yield bytes([0x27, last_seed[0] + 1]) + last_seed[1]
+            remembered = None
+            last_seed = outstanding_seed(m)
+            continue
         if last_seed is not None:
             remembered = last_seed
             if rng.random() < 0.2:
@@ -660,6 +766,13 @@ def replay(ctx: Any, witness: dict[str, Any]) -> None:
     def ux(x: Any) -> bytes:
         return bytes.fromhex(x[4:]) if isinstance(x, str) and x.startswith("hex:") else x
 
+    def pause_item(h: Any) -> Any:
+        if h == b"\x00PAUSE":
+            return ("PAUSE", 30.0)
+        if h == b"\x00PAUSE:short":
+            return ("PAUSE", 3.0)
+        return h
+
     async def go() -> None:
         off = frozenset(witness.get("off", []))
         beside = witness.get("beside")
@@ -678,16 +791,14 @@ def replay(ctx: Any, witness: dict[str, Any]) -> None:
             if cur != frozenset(beside["off_now"]):
                 reconfigure(main, "assign", cur, frozenset(beside["off_now"]))
             by = by or await new_bystander(witness["server_seed"], witness["rp"], witness["bystander"])
-            await drive(ctx, by.d, [ux(h) for h in witness.get("history", []) if not ux(h).startswith(b"\x00")], "replay", {**by.cfg, "beside": beside})
+            await drive(ctx, by.d, [pause_item(ux(h)) for h in witness.get("history", []) if not ux(h).startswith(b"\x00RECONF")], "replay", {**by.cfg, "beside": beside})
             return
         d = make_driver(witness["server_seed"], vecu.PARAM_SETS[witness["rp"]], vecu.all_switches(off), witness.get("constructed") or "vecu")
         await d.setup()
         cfg = {"server_seed": witness["server_seed"], "rp": witness["rp"], "off": sorted(off), "live": bool(witness.get("live"))}
 
         def item(h: Any) -> Any:
-            h = ux(h)
-            if h == b"\x00PAUSE":
-                return ("PAUSE", 30.0)
+            h = pause_item(ux(h))
             if isinstance(h, bytes) and h.startswith(b"\x00RECONF:"):
                 how, _, names = h[len(b"\x00RECONF:"):].decode().partition(":")
                 return ("RECONF", how, frozenset(n for n in names.split(",") if n))
